@@ -527,7 +527,42 @@ def ev_b2f(d):
                 tol=TOL)
 
 
+def ev_history(d, kind):
+    """One decorated function, re-parameterised through its documented setter (evaluate.translate(v) /
+    .scale(f) / .rotate(M)) between calls: every call must hand the wrapped function the individual
+    transformed with the CURRENT parameter.  Each call is one stateless protocol line for the model."""
+    rec = Recorder()
+    steps = [[d["t" if kind == "translate" else "f" if kind == "scale" else "R"], d["x"]]] + list(d["reset"])
+    mk = {"translate": btools.translate, "scale": btools.scale, "rotate": btools.rotate}[kind]
+    first = steps[0][0]
+    deco = mk(numpy.array(first, dtype=float) if kind == "rotate" else list(first))
+    fn = deco(rec)
+    lines, expect, orc = [], [], None
+    for i, (par, x) in enumerate(steps):
+        if i > 0:
+            getattr(fn, kind)(numpy.array(par, dtype=float) if kind == "rotate" else list(par))
+        fn(list(x))
+        got = [float(v) for v in rec.got]
+        if kind == "translate":
+            want = [float(Fr(a) - Fr(b)) for a, b in zip(x, par)]
+            lines.append("C20 translate %s %s" % (fl(par), fl(x)))
+        elif kind == "scale":
+            want = [float(Fr(a) / Fr(b)) for a, b in zip(x, par)]
+            lines.append("C20 scale %s %s" % (fl(par), fl(x)))
+        else:
+            minv = numpy.linalg.inv(numpy.array(par, dtype=float))
+            want = [float(v) for v in minv.dot(numpy.array(x, dtype=float))]
+            lines.append("C20 rotate %s %s" % (fl2(deco.matrix.tolist()), fl(x)))
+        expect.append(fl(got))
+        if orc is None and (len(got) != len(want) or any(not close(g, w_, 1e-9, 1e-9) for g, w_ in zip(got, want))):
+            orc = ("%s: call #%d after re-parameterising through the setter handed %r to the function, "
+                   "the inverse transform with the current parameter %r gives %r" % (kind, i, got, par, want))
+    return Case(d, lines, expect, orc, tag="dec/%s/setter-history/%d" % (kind, len(steps)), tol=TOL)
+
+
 def ev_translate(d):
+    if d.get("reset"):
+        return ev_history(d, "translate")
     t, x = d["t"], d["x"]
     rec = Recorder()
     btools.translate(list(t))(rec)(list(x))
@@ -547,6 +582,8 @@ def ev_translate(d):
 
 
 def ev_scale(d):
+    if d.get("reset"):
+        return ev_history(d, "scale")
     f, x = d["f"], d["x"]
     rec = Recorder()
     line = "C20 scale %s %s" % (fl(f), fl(x))
@@ -569,6 +606,8 @@ def ev_scale(d):
 
 
 def ev_rotate(d):
+    if d.get("reset"):
+        return ev_history(d, "rotate")
     R, x = numpy.array(d["R"], dtype=float), d["x"]
     rec = Recorder()
     dec = btools.rotate(R)
@@ -974,6 +1013,24 @@ def gen_dec(rng, nrand):
         elif r < 0.3:
             t = [0.0] * n
         yield {"k": "translate", "t": t, "x": x}
+        # one decorated function re-parameterised through its documented setters between calls
+        if n and rng.random() < 0.35:
+            m = min(n, 6)
+            mkx = lambda: [dyadic(rng) for _ in range(m)]
+            hist = [[[dyadic(rng) for _ in range(m)], mkx()] for _ in range(rng.randint(1, 3))]
+            yield {"k": "translate", "t": [dyadic(rng) for _ in range(m)], "x": mkx(), "reset": hist}
+            pw = [1.0, 2.0, 0.5, 0.25, 4.0, -2.0, 8.0, 0.125]
+            histf = [[[rng.choice(pw) for _ in range(m)], mkx()] for _ in range(rng.randint(1, 3))]
+            yield {"k": "scale", "f": [rng.choice(pw) for _ in range(m)], "x": mkx(), "exact": True, "reset": histf}
+
+            def perm_matrix():
+                p_ = list(range(m)); rng.shuffle(p_)
+                R_ = [[0.0] * m for _ in range(m)]
+                for i_ in range(m):
+                    R_[i_][p_[i_]] = rng.choice([1.0, -1.0, 2.0])
+                return R_
+            histr = [[perm_matrix(), mkx()] for _ in range(rng.randint(1, 2))]
+            yield {"k": "rotate", "R": perm_matrix(), "x": mkx(), "cat": "setter", "reset": histr}
         if rng.random() < 0.3:
             yield {"k": "translate", "t": [rng.uniform(-5, 5) for _ in range(n)], "x": [rng.uniform(-5, 5) for _ in range(n)],
                    "exact": False}
